@@ -359,14 +359,15 @@ class IsMagic(Contract):
 
 
 class WcMatchCompile(Contract):
-    module, qual, props = 'wcmatch', 'WcMatch._compile', ('C14',)
+    module, qual, props = 'wcmatch', 'WcMatch._compile', ('C14', 'C11')
     assumptions = ("re.compile('^.*$', DOTALL) matches every name (finite lemma in C14)",)
 
     def inputs(self):
         self.fc_none, self.dc_none = z3.Bool('file_check_is_None'), z3.Bool('folder_exclude_check_is_None')
         fields = dict(file_check=V('opt', None, isnone=self.fc_none, inner=ObjV(z3.Const('old_file_check', Obj))),
                       folder_exclude_check=V('opt', None, isnone=self.dc_none, inner=ObjV(z3.Const('old_folder_check', Obj))),
-                      file_pathname=Bool(z3.Bool('self_file_pathname')), dir_pathname=Bool(z3.Bool('self_dir_pathname')))
+                      file_pathname=Bool(z3.Bool('self_file_pathname')), dir_pathname=Bool(z3.Bool('self_dir_pathname')),
+                      recursive=Bool(z3.Bool('self_recursive')), show_hidden=Bool(z3.Bool('self_show_hidden')), matchbase=Bool(z3.Bool('self_matchbase')))
         return dict(params=dict(self=selfobj(), file_pattern=ObjV(z3.Const('file_pattern', Obj)), folder_exclude_pattern=ObjV(z3.Const('folder_exclude_pattern', Obj))),
                     fields=fields, pre=[], ghost={})
 
@@ -393,7 +394,7 @@ class WcMatchCompile(Contract):
                                  pyvc.eq(f['folder_exclude_check'], U('fn._wcmatch.WcRegexp', V('tuple', None, items=[])))),
                            pyvc.eq(f['folder_exclude_check'], ObjV(z3.Const('old_folder_check', Obj))))
             return z3.And(file_ok, dir_ok)
-        return [('WcMatch._compile.file_pattern_by_FILEPATHNAME_and_exclude_by_DIRPATHNAME;empty_exclude_matches_nothing', ('C14',), post)]
+        return [('WcMatch._compile.file_pattern_by_FILEPATHNAME_and_exclude_by_DIRPATHNAME;empty_exclude_matches_nothing;every_given_pattern_is_compiled_(so_the_limit_is_enforced)_whatever_the_flags', ('C14', 'C11'), post)]
 
 
 class RegexpFilter(Contract):
